@@ -211,3 +211,16 @@ func (c *ctl) snapshot() []map[string]any {
 	defer c.mu.Unlock()
 	return append([]map[string]any(nil), c.events...)
 }
+
+// count returns the number of recorded events with the given name.
+func (c *ctl) count(ev string) int {
+	c.mu.Lock()
+	defer c.mu.Unlock()
+	n := 0
+	for _, e := range c.events {
+		if e["ev"] == ev {
+			n++
+		}
+	}
+	return n
+}
